@@ -261,6 +261,11 @@ var retainPolicies = []retainPolicy{
 	{"never", func(string, hackpadfs.FileInfo) bool { return false }},
 	{"small", func(_ string, info hackpadfs.FileInfo) bool { return info.Size() <= 512 }},
 	{"byname", func(n string, _ hackpadfs.FileInfo) bool { return strings.HasSuffix(n, "a") }},
+	// decided by the full name, not the base name: only files inside some directory
+	{"nested", func(n string, _ hackpadfs.FileInfo) bool { return strings.Contains(n, "/") }},
+	{"bydir", func(n string, _ hackpadfs.FileInfo) bool {
+		return strings.HasPrefix(n, "a/") || strings.HasPrefix(n, "b/")
+	}},
 }
 
 // access sequence operation on the cache FS (and on the source directly, as the reference)
@@ -681,8 +686,13 @@ func runC11(r *Rng, n int, replay string) {
 				c2 := &Case{ID: 100000 + id, Kind: "fault/" + ft.kind + "/reopen-source-down", Trivial: true}
 				c2.Cells = []string{fmt.Sprintf("fault2/%s/min=%v", ft.kind, minimal)}
 				c2.Text = []string{hdr + "; then a re-open while the source cannot be opened; then fault-free re-opens"}
+				var res2 []string
 				if f, e := cfs2.Open(name); e == nil {
+					got, _ := readAllOf(f)
 					_ = f.Close()
+					res2 = append(res2, "(Served "+cBytes(got)+")")
+				} else {
+					res2 = append(res2, "OErr")
 				}
 				src2.failRead, st2.failAt = -1, -1
 				src2.mu.Lock()
@@ -691,11 +701,13 @@ func runC11(r *Rng, n int, replay string) {
 				if f, e := cfs2.Open(name); e == nil {
 					got, rerr := readAllOf(f)
 					_ = f.Close()
+					res2 = append(res2, "(Served "+cBytes(got)+")")
 					c2.Text = append(c2.Text, fmt.Sprintf("re-open with the source down: %d bytes", len(got)))
 					if rerr != nil || !bytes.Equal(got, data) {
 						c2.fail(c2.Text[0]+fmt.Sprintf(": the re-open with the source down served %d bytes (err %v) instead of the complete %d source bytes", len(got), rerr, len(data)), "fault2:"+ft.kind+":partial-served")
 					}
 				} else {
+					res2 = append(res2, "OErr")
 					c2.Text = append(c2.Text, "re-open with the source down: "+e.Error())
 				}
 				src2.mu.Lock()
@@ -704,15 +716,25 @@ func runC11(r *Rng, n int, replay string) {
 				for k := 0; k < 2 && c2.Oracle == ""; k++ {
 					f, e := cfs2.Open(name)
 					if e != nil {
+						res2 = append(res2, "OErr")
 						c2.Text = append(c2.Text, fmt.Sprintf("re-open %d: %v", k, e))
 						continue
 					}
 					got, rerr := readAllOf(f)
 					_ = f.Close()
+					res2 = append(res2, "(Served "+cBytes(got)+")")
 					c2.Text = append(c2.Text, fmt.Sprintf("re-open %d: %d bytes", k, len(got)))
 					if rerr != nil || !bytes.Equal(got, data) {
 						c2.fail(c2.Text[0]+fmt.Sprintf(": re-open %d served %d bytes (err %v) instead of the complete %d source bytes", k, len(got), rerr, len(data)), "fault2:"+ft.kind+":partial-served")
 					}
+				}
+				// model case: (fault, part), then FSrcOpen, then two clean opens
+				if mf, ok := modelFault(ft.kind, ft.idx, st0.log, size); ok && size <= 1100 && len(res2) == 4 {
+					c2.Trivial = false
+					c2.Coq = fmt.Sprintf("(%s, %s, %s, %s, %s, %s)", srcCoq([]srcEntry{{path: name, data: data}}, name), cList([]string{cStr(name)}), cBool(!minimal),
+						cList([]string{fmt.Sprintf("(%s, %s, %s)", cStr(name), mf, cNat(partOf(ft.kind, ft.idx, st0.log, size))),
+							fmt.Sprintf("(%s, FSrcOpen, 0%%nat)", cStr(name)), fmt.Sprintf("(%s, FNone, 0%%nat)", cStr(name)), fmt.Sprintf("(%s, FNone, 0%%nat)", cStr(name))}),
+						cList(res2), cList([]string{cPair(cStr(name), cNat(int(src2.count(src2.opens, name))))}))
 				}
 				emit(c2)
 			}
